@@ -58,6 +58,18 @@ class Deadlock(Exception):
     pass
 
 
+def quant(x):
+    """round a duration to a multiple of 2^-20 s"""
+    return round(x * 1048576.0) / 1048576.0
+
+
+def ticks(t):
+    """virtual time in ticks of 2^-30 s (exact for the dyadic instants the simulation produces)"""
+    v = t * 1073741824.0
+    assert v == int(v), "non-dyadic instant %r" % t
+    return int(v)
+
+
 class Tx:
     __slots__ = ("n", "t", "src", "dst", "data")
 
@@ -93,15 +105,17 @@ class Net:
         delays = list(self.fate(tx))
         self.log.append(("tx", tx.n, tx.t, src, dst, tx.data, tuple(delays)))
         for d in delays:
-            # equal delays keep FIFO order (heapq is not stable): add a strictly increasing, negligible offset
-            self.loop.call_later(max(0.0, d) + (self.ntx % 1000000) * 1e-10, self._arrive, tx)
+            # delays are quantised to 2^-20 s and given a strictly increasing offset of 2^-30 s units: all instants stay
+            # dyadic (float arithmetic exact, the Lean model uses integer ticks of 2^-30 s), equal delays keep FIFO order
+            # (heapq is not stable) and distinct transmissions never arrive at the same instant
+            self.loop.call_later(quant(max(0.0, d)) + (self.ntx % 1048576) * 2.0 ** -30, self._arrive, tx)
 
     def inject(self, src, dst, data, delay=0.0):
         """third-party / forged datagram (not produced by an endpoint)"""
         self.ntx += 1
         tx = Tx(self.ntx, self.loop.time(), src, dst, bytes(data))
         self.log.append(("inject", tx.n, tx.t, src, dst, tx.data, (delay,)))
-        self.loop.call_later(delay, self._arrive, tx)
+        self.loop.call_later(quant(delay) + (self.ntx % 1048576) * 2.0 ** -30, self._arrive, tx)
         return tx.n
 
     def _arrive(self, tx):
@@ -156,6 +170,7 @@ class FakeUDPSocket:
         self.net.transmit(self.addr, addr, data)
 
     async def recv(self):
+        await anyio.sleep(0)      # a real socket read always passes through the event loop once
         return await self.inbox.get()
 
     def _deliver(self, data, src):
@@ -183,6 +198,7 @@ class FakeUDPClient:
         self.net.transmit(self.local, self.remote, data)
 
     async def recv(self):
+        await anyio.sleep(0)
         return await self.inbox.get()
 
     def _deliver(self, data, src):
@@ -216,6 +232,7 @@ class FakeStream:
             self.net.loop.call_soon(self.peer.inbox.put, chunk)
 
     async def recv(self):
+        await anyio.sleep(0)
         try:
             return await self.inbox.get()
         except anyio.ClosedResourceError:
